@@ -552,3 +552,74 @@ def negative_index(prog: Program, modules: Set[str]) -> List[Instance]:
                                 f"integer index `{idx}` is {'adjusted' if adjusted else 'rejected'} for negative values before becoming slice({idx}, {idx} + 1)" if ok
                                 else f"`{short(n)}` turns an integer index into a slice without handling negative values: index -1 becomes slice(-1, 0), a negative-length region", fi.where(n)))
     return out
+
+
+def enclosing_projection(prog: Program) -> List[Instance]:
+    """C16: the pixel box of GeoBox.enclosing comes, on every path, from projecting the whole region
+    (self.project(region)) and rounding outwards - not from a few mapped corners."""
+    out: List[Instance] = []
+    f = prog.func("geobox:GeoBox.enclosing")
+    rd = ReachingDefs(f.node)
+    # the variable whose .bbox / spans feed the result
+    users = [n for n in walk_own(f.node) if isinstance(n, ast.Attribute) and n.attr in ("bbox", "span_x", "span_y") and isinstance(n.value, ast.Name)]
+    if not users:
+        return [Instance("R-GUARDSEQ", f"{f.qual}#project-then-round", UNDET, "pixel box variable not found", f.where())]
+    var = users[0].value.id
+    bad = []
+    for u in users:
+        st = enclosing_stmt(u)
+        for _, dst, v, kind in rd.reaching(st, var):
+            calls = {call_name(x) for x in ast.walk(v) if isinstance(x, ast.Call)} if v is not None else set()
+            if not ({"project", "round"} <= calls):
+                bad.append(short(v) if v is not None else kind)
+    out.append(Instance("R-GUARDSEQ", f"{f.qual}#project-then-round", BAD if bad else OK,
+                        f"on some path the pixel box is `{bad[0][:70]}`, not the rounded box of the projected region: a rotated grid's enclosing box misses part of the region" if bad
+                        else "pixel box = self.project(region).boundingbox.round() on every path", f.where()))
+    return out
+
+
+def explicit_beats_attribute(prog: Program) -> List[Instance]:
+    """C15/C13: an explicitly passed nodata option takes precedence over the value stored in the
+    array's attributes (the attribute is consulted only when the option is None)."""
+    out: List[Instance] = []
+    for q in ("cog._rio:write_cog", "_xr_interop:_xr_reproject_da"):
+        f = prog.func(q)
+        cond = Conditions(f.body)
+        n_attr = 0
+        for n in walk_own(f.node):
+            is_attr_read = (isinstance(n, ast.Call) and call_name(n) == "get" and "attrs" in short(n.func) and n.args and isinstance(n.args[0], ast.Constant) and n.args[0].value == "nodata") or (
+                isinstance(n, ast.Attribute) and n.attr == "nodata" and short(n.value).endswith(".odc"))
+            if not is_attr_read:
+                continue
+            n_attr += 1
+            st = enclosing_stmt(n)
+            cs = conds_at(cond, st)
+            guarded = any(p and isinstance(e, ast.Compare) and isinstance(e.ops[0], ast.Is) and isinstance(e.comparators[0], ast.Constant) and e.comparators[0].value is None and "nodata" in short(e.left) for e, p in cs)
+            # the attribute read must not itself carry the explicit option as its default
+            nested_pop = isinstance(n, ast.Call) and any(isinstance(x, ast.Call) and call_name(x) == "pop" for a in n.args[1:] for x in ast.walk(a))
+            ok = guarded and not nested_pop
+            out.append(Instance("R-GUARDSEQ", f"{q}#explicit-nodata-first:{n_attr}", OK if ok else BAD,
+                                "the nodata attribute is read only when no explicit nodata was passed" if ok else f"`{short(st, 70)}` lets the array's nodata attribute override an explicitly passed nodata", f.where(n)))
+        if n_attr == 0:
+            out.append(Instance("R-GUARDSEQ", f"{q}#explicit-nodata-first", INFO, "no nodata attribute fallback", f.where(), nontrivial=False))
+    return out
+
+
+def polygon_bbox_last(prog: Program) -> List[Instance]:
+    """C08: from_geopolygon re-projects the *polygon* and takes its bounding box afterwards; a
+    re-projected bounding box of the source polygon is larger (or, by corners, smaller) than needed."""
+    out: List[Instance] = []
+    f = prog.func("geobox:GeoBox.from_geopolygon")
+    org = Origins(f)
+    poly = f.param_names()[0]
+    calls = [n for n in walk_own(f.node) if isinstance(n, ast.Call) and call_name(n) == "from_bbox" and n.args]
+    for n in calls:
+        a = n.args[0]
+        exprs = [a] + [v for nm in names_in(a) if nm != poly for _, v in org.defs.get(nm, [])]
+        ok = isinstance(a, ast.Attribute) and a.attr == "boundingbox" and names_in(a.value) == {poly}
+        bad_shape = any(isinstance(x, ast.Call) and call_name(x) == "to_crs" and isinstance(x.func, ast.Attribute) and isinstance(x.func.value, ast.Attribute) and x.func.value.attr == "boundingbox" for e in exprs for x in ast.walk(e))
+        out.append(Instance("R-GUARDSEQ", f"{f.qual}#bbox-of-projected-polygon", OK if ok and not bad_shape else BAD,
+                            "bounding box is taken from the polygon after re-projection" if ok and not bad_shape else f"`{short(a)}`: the grid is built from a re-projected bounding box instead of the bounding box of the re-projected polygon", f.where(n)))
+    if not calls:
+        out.append(Instance("R-GUARDSEQ", f"{f.qual}#bbox-of-projected-polygon", UNDET, "from_bbox call not found", f.where()))
+    return out
